@@ -80,7 +80,11 @@ func (g *guide) do(line string) string {
 		if len(op) > 6 {
 			maxPer = atoi(op[6])
 		}
-		g.r.e = newEngine(atoi(op[1]), uint64(atoi(op[2])), maxPer)
+		nw := 0
+		if len(op) > 7 {
+			nw = atoi(op[7])
+		}
+		g.r.e = newEngine(atoi(op[1]), uint64(atoi(op[2])), maxPer, nw)
 		g.r.leafLen, g.r.innLen, g.r.extLen = atoi(op[3]), atoi(op[4]), atoi(op[5])
 		for p := 0; p < g.r.e.npeers; p++ {
 			g.r.prime(p)
@@ -330,8 +334,11 @@ func genStall(rnd *rand.Rand, i int) []string {
 		}
 	}()
 	limit := []int{100, 120, 180}[rnd.Intn(3)]
+	variant := rnd.Intn(10)
+	if variant >= 8 {
+		return genPoolStall(g, rnd, limit, variant == 8)
+	}
 	g.do(fmt.Sprintf("cfg 2 %d %d %d %d", limit, leafLen, innerLen, extLen))
-	variant := rnd.Intn(8)
 	// A's first request: 3 blocks; optionally a second one that is paused by its request hook
 	g.do(g.fixedNew(0, "a", 3, "ooo"))
 	paused := -1
@@ -413,4 +420,50 @@ func (g *guide) fixedNew(p int, hook string, n int, bh string) string {
 	k := g.nreq
 	g.nreq++
 	return fmt.Sprintf("new %d %d %d 1 %s %d -1 %s", p, k, k, hook, n, bh)
+}
+
+// bounded worker pool (taskqueue.Startup(n, ...)): peer 0 stalls with as many (exhaust) or fewer
+// (control) running requests than there are workers; then peer 1 sends a request
+func genPoolStall(g *guide, rnd *rand.Rand, limit int, exhaust bool) []string {
+	nw := 2
+	if limit >= 180 {
+		limit = 120
+	}
+	g.do(fmt.Sprintf("cfg 2 %d %d %d %d 0 %d", limit, leafLen, innerLen, extLen, nw))
+	na := nw
+	if !exhaust {
+		na = nw - 1
+	}
+	for i := 0; i < na; i++ {
+		g.do(g.fixedNew(0, "a", 3, "ooo"))
+	}
+	g.do("net 0 ok") // the primer; nothing of peer 0 is acknowledged afterwards
+	for i := 0; i < na; i++ {
+		g.do("pop")
+	}
+	// every executor of peer 0 runs until it waits for memory
+	for round := 0; round < 4; round++ {
+		for _, w := range g.r.e.workers {
+			if w.state == "L" {
+				g.do(fmt.Sprintf("step %d", w.id))
+			}
+		}
+	}
+	g.do(g.fixedNew(1, "a", 2, "oo"))
+	k := len(g.r.e.workers)
+	// when peer 0 is healthy (baseline run of the oracle) its executors finish here and free the pool;
+	// when it is stalled these steps are refused (the executors wait for memory)
+	for round := 0; round < 4; round++ {
+		for w := 0; w < k; w++ {
+			g.do(fmt.Sprintf("step %d", w))
+		}
+	}
+	for round := 0; round < 3; round++ {
+		g.do("pop")
+		g.do(fmt.Sprintf("step %d", k))
+		g.do("net 1 ok")
+		g.do("net 1 ok")
+	}
+	g.do("end")
+	return g.lines
 }
